@@ -1723,4 +1723,274 @@ theorem lcQ_valid (n : Nat) (A : Adj) (v : Nat) (hv : v < n) (hA : Simple n A) :
   · simp [e]
 
 
+/-! ### LC-equivalent graphs admit a valid `Q` (the elementary direction of Van den Nest's theorem) -/
+
+/-- a linear functional of a pair of vectors -/
+def linfun (n : Nat) (E F z x : Nat → Bool) : Bool := parityTo n fun m => xor (E m && z m) (F m && x m)
+
+/-- coefficients of `⟨Q (z; x), s_k(C)⟩` -/
+def coefE (C : Adj) (q : Nat → Bool) (k m : Nat) : Bool := xor (decide (m = k) && q (4 * k)) (C k m && q (4 * m + 2))
+def coefF (C : Adj) (q : Nat → Bool) (k m : Nat) : Bool := xor (decide (m = k) && q (4 * k + 1)) (C k m && q (4 * m + 3))
+
+/-- equation `(j, k)` is `⟨Q s_j(A), s_k(C)⟩` -/
+theorem equation_linfun (n : Nat) (A C : Adj) (q : Nat → Bool) (j k : Nat) (hA : Simple n A) (hC : Simple n C)
+    (hj : j < n) (hk : k < n) :
+    equation n A C q j k = linfun n (coefE C q k) (coefF C q k) (fun m => A m j) (fun m => decide (m = j)) := by
+  unfold equation linfun coefE coefF
+  have e : ∀ m, m < n →
+      xor ((xor (decide (m = k) && q (4 * k)) (C k m && q (4 * m + 2))) && A m j)
+          ((xor (decide (m = k) && q (4 * k + 1)) (C k m && q (4 * m + 3))) && decide (m = j)) =
+      xor (xor (A m j && C m k && q (4 * m + 2)) (decide (m = k) && (A j k && q (4 * k))))
+          (xor (decide (m = j) && (C j k && q (4 * j + 3))) (decide (m = k) && (decide (j = k) && q (4 * j + 1)))) := by
+    intro m hm
+    rw [hC.1 k m hk hm]
+    by_cases e1 : m = k <;> by_cases e2 : m = j
+    · subst e1; subst e2; simp
+      cases A m m <;> cases C m m <;> cases q (4 * m) <;> cases q (4 * m + 1) <;> cases q (4 * m + 2) <;> cases q (4 * m + 3) <;> rfl
+    · subst e1
+      have e3 : ¬ j = m := fun e => e2 e.symm
+      simp [e2, e3]
+      rw [hA.1 j m hj hm]
+      cases A m j <;> cases C m m <;> cases q (4 * m) <;> cases q (4 * m + 2) <;> rfl
+    · subst e2
+      simp [e1]
+      cases A m m <;> cases C m k <;> cases q (4 * m + 2) <;> cases q (4 * m + 3) <;> rfl
+    · simp [e1, e2]
+      cases A m j <;> cases C m k <;> cases q (4 * m + 2) <;> rfl
+  rw [parityTo_congr n _ _ e, parityTo_xor, parityTo_xor, parityTo_xor, parityTo_single n k _ hk, parityTo_single n j _ hj,
+    parityTo_single n k _ hk]
+
+/-- linearity of `linfun` in the pair of vectors -/
+theorem linfun_linear (n : Nat) (E F : Nat → Bool) (w : Nat → Bool) (Z X : Nat → Nat → Bool) :
+    linfun n E F (fun m => parityTo n fun l => w l && Z l m) (fun m => parityTo n fun l => w l && X l m) =
+      parityTo n fun l => w l && linfun n E F (Z l) (X l) := by
+  unfold linfun
+  have e1 : ∀ m, m < n →
+      xor (E m && parityTo n fun l => w l && Z l m) (F m && parityTo n fun l => w l && X l m) =
+      parityTo n fun l => w l && xor (E m && Z l m) (F m && X l m) := by
+    intro m _
+    rw [← parityTo_and_const, ← parityTo_and_const, ← parityTo_xor]
+    apply parityTo_congr
+    intro l _
+    cases E m <;> cases F m <;> cases w l <;> cases Z l m <;> cases X l m <;> rfl
+  rw [parityTo_congr n _ _ e1, parityTo_comm]
+  apply parityTo_congr
+  intro l _
+  rw [parityTo_and_const]
+
+
+/-- blockwise product `Q₂ Q₁` of two local symplectic maps given as solution vectors -/
+def qComp (q2 q1 : Nat → Bool) (idx : Nat) : Bool :=
+  if idx % 4 = 0 then xor (q2 (4 * (idx / 4)) && q1 (4 * (idx / 4))) (q2 (4 * (idx / 4) + 1) && q1 (4 * (idx / 4) + 2))
+  else if idx % 4 = 1 then xor (q2 (4 * (idx / 4)) && q1 (4 * (idx / 4) + 1)) (q2 (4 * (idx / 4) + 1) && q1 (4 * (idx / 4) + 3))
+  else if idx % 4 = 2 then xor (q2 (4 * (idx / 4) + 2) && q1 (4 * (idx / 4))) (q2 (4 * (idx / 4) + 3) && q1 (4 * (idx / 4) + 2))
+  else xor (q2 (4 * (idx / 4) + 2) && q1 (4 * (idx / 4) + 1)) (q2 (4 * (idx / 4) + 3) && q1 (4 * (idx / 4) + 3))
+
+theorem qComp_0 (q2 q1 : Nat → Bool) (m : Nat) :
+    qComp q2 q1 (4 * m) = xor (q2 (4 * m) && q1 (4 * m)) (q2 (4 * m + 1) && q1 (4 * m + 2)) := by
+  unfold qComp
+  have h : 4 * m / 4 = m := by omega
+  rw [if_pos (by omega), h]
+theorem qComp_1 (q2 q1 : Nat → Bool) (m : Nat) :
+    qComp q2 q1 (4 * m + 1) = xor (q2 (4 * m) && q1 (4 * m + 1)) (q2 (4 * m + 1) && q1 (4 * m + 3)) := by
+  unfold qComp
+  have h : (4 * m + 1) / 4 = m := by omega
+  rw [if_neg (by omega), if_pos (by omega), h]
+theorem qComp_2 (q2 q1 : Nat → Bool) (m : Nat) :
+    qComp q2 q1 (4 * m + 2) = xor (q2 (4 * m + 2) && q1 (4 * m)) (q2 (4 * m + 3) && q1 (4 * m + 2)) := by
+  unfold qComp
+  have h : (4 * m + 2) / 4 = m := by omega
+  rw [if_neg (by omega), if_neg (by omega), if_pos (by omega), h]
+theorem qComp_3 (q2 q1 : Nat → Bool) (m : Nat) :
+    qComp q2 q1 (4 * m + 3) = xor (q2 (4 * m + 2) && q1 (4 * m + 1)) (q2 (4 * m + 3) && q1 (4 * m + 3)) := by
+  unfold qComp
+  have h : (4 * m + 3) / 4 = m := by omega
+  rw [if_neg (by omega), if_neg (by omega), if_neg (by omega), h]
+
+/-- determinant of block `m` -/
+def detQ (q : Nat → Bool) (m : Nat) : Bool := xor (q (4 * m) && q (4 * m + 3)) (q (4 * m + 1) && q (4 * m + 2))
+
+theorem detQ_comp (q2 q1 : Nat → Bool) (m : Nat) : detQ (qComp q2 q1) m = (detQ q2 m && detQ q1 m) := by
+  unfold detQ
+  rw [qComp_0, qComp_1, qComp_2, qComp_3]
+  cases q2 (4 * m) <;> cases q2 (4 * m + 1) <;> cases q2 (4 * m + 2) <;> cases q2 (4 * m + 3) <;>
+    cases q1 (4 * m) <;> cases q1 (4 * m + 1) <;> cases q1 (4 * m + 2) <;> cases q1 (4 * m + 3) <;> rfl
+
+/-- image `Q s_j(A)` of a graph-state generator: `(z', x')` -/
+def imgZ (A : Adj) (q : Nat → Bool) (j m : Nat) : Bool := xor (q (4 * m) && A m j) (q (4 * m + 1) && decide (m = j))
+def imgX (A : Adj) (q : Nat → Bool) (j m : Nat) : Bool := xor (q (4 * m + 2) && A m j) (q (4 * m + 3) && decide (m = j))
+
+/-- `⟨Q₂Q₁ s_j(A), s_k(C)⟩ = ⟨Q₂ (Q₁ s_j(A)), s_k(C)⟩` -/
+theorem equation_comp (n : Nat) (A C : Adj) (q2 q1 : Nat → Bool) (j k : Nat) (hA : Simple n A) (hC : Simple n C)
+    (hj : j < n) (hk : k < n) :
+    equation n A C (qComp q2 q1) j k = linfun n (coefE C q2 k) (coefF C q2 k) (imgZ A q1 j) (imgX A q1 j) := by
+  rw [equation_linfun n A C _ j k hA hC hj hk]
+  unfold linfun
+  apply parityTo_congr
+  intro m _
+  unfold coefE coefF imgZ imgX
+  rw [qComp_0, qComp_1, qComp_2, qComp_3]
+  by_cases e1 : m = k
+  · subst e1
+    by_cases e2 : m = j
+    · subst e2; simp
+      cases q2 (4 * m) <;> cases q2 (4 * m + 1) <;> cases q2 (4 * m + 2) <;> cases q2 (4 * m + 3) <;>
+        cases q1 (4 * m) <;> cases q1 (4 * m + 1) <;> cases q1 (4 * m + 2) <;> cases q1 (4 * m + 3) <;>
+        cases A m m <;> cases C m m <;> rfl
+    · simp [e2]
+      cases q2 (4 * m) <;> cases q2 (4 * m + 1) <;> cases q2 (4 * m + 2) <;> cases q2 (4 * m + 3) <;>
+        cases q1 (4 * m) <;> cases q1 (4 * m + 2) <;> cases A m j <;> cases C m m <;> rfl
+  · by_cases e2 : m = j
+    · subst e2; simp [e1]
+      cases q2 (4 * m + 2) <;> cases q2 (4 * m + 3) <;>
+        cases q1 (4 * m) <;> cases q1 (4 * m + 1) <;> cases q1 (4 * m + 2) <;> cases q1 (4 * m + 3) <;>
+        cases A m m <;> cases C k m <;> rfl
+    · simp [e1, e2]
+      cases q2 (4 * m + 2) <;> cases q2 (4 * m + 3) <;> cases q1 (4 * m) <;> cases q1 (4 * m + 2) <;>
+        cases A m j <;> cases C k m <;> rfl
+
+/-- if `Q₁` solves the system for `(A, B)` then `Q₁ s_j(A)` lies in the span of the generators of `B`: `z' = θ_B x'` -/
+theorem img_in_span (n : Nat) (A B : Adj) (q1 : Nat → Bool) (j k : Nat) (hA : Simple n A) (hB : Simple n B)
+    (hj : j < n) (hk : k < n) (h : equation n A B q1 j k = false) :
+    imgZ A q1 j k = parityTo n fun l => imgX A q1 j l && B l k := by
+  rw [equation_linfun n A B q1 j k hA hB hj hk] at h
+  unfold linfun at h
+  have e : ∀ m, m < n →
+      xor (coefE B q1 k m && A m j) (coefF B q1 k m && decide (m = j)) =
+      xor (decide (m = k) && imgZ A q1 j k) (imgX A q1 j m && B m k) := by
+    intro m hm
+    unfold coefE coefF imgZ imgX
+    rw [hB.1 k m hk hm]
+    by_cases e1 : m = k
+    · subst e1
+      cases q1 (4 * m) <;> cases q1 (4 * m + 1) <;> cases q1 (4 * m + 2) <;> cases q1 (4 * m + 3) <;>
+        cases A m j <;> cases B m m <;> cases decide (m = j) <;> simp
+    · simp [e1]
+      cases q1 (4 * m + 2) <;> cases q1 (4 * m + 3) <;> cases A m j <;> cases B m k <;> cases decide (m = j) <;> rfl
+  rw [parityTo_congr n _ _ e, parityTo_xor, parityTo_single n k _ hk] at h
+  revert h
+  cases imgZ A q1 j k <;> cases parityTo n (fun l => imgX A q1 j l && B l k) <;> simp
+
+/-- **composition**: if `Q₁` solves the system for `(A, B)` and `Q₂` for `(B, C)` then `Q₂Q₁` solves it for `(A, C)` -/
+theorem equation_trans (n : Nat) (A B C : Adj) (q1 q2 : Nat → Bool) (hA : Simple n A) (hB : Simple n B) (hC : Simple n C)
+    (h1 : ∀ j k, j < n → k < n → equation n A B q1 j k = false)
+    (h2 : ∀ j k, j < n → k < n → equation n B C q2 j k = false) (j k : Nat) (hj : j < n) (hk : k < n) :
+    equation n A C (qComp q2 q1) j k = false := by
+  rw [equation_comp n A C q2 q1 j k hA hC hj hk]
+  -- write (z', x') as a combination of the generators of B with coefficients x'
+  have hz : ∀ m, m < n → imgZ A q1 j m = parityTo n fun l => imgX A q1 j l && B m l := by
+    intro m hm
+    rw [img_in_span n A B q1 j m hA hB hj hm (h1 j m hj hm)]
+    apply parityTo_congr
+    intro l hl
+    rw [hB.1 l m hl hm]
+  have hx : ∀ m, m < n → imgX A q1 j m = parityTo n fun l => imgX A q1 j l && decide (m = l) := by
+    intro m hm
+    have : ∀ l, l < n → (imgX A q1 j l && decide (m = l)) = (decide (l = m) && imgX A q1 j l) := by
+      intro l _
+      by_cases e : l = m
+      · subst e; simp
+      · have e' : ¬ m = l := fun x => e x.symm
+        simp [e, e']
+    rw [parityTo_congr n _ _ this, parityTo_single n m _ hm]
+  have hcong : linfun n (coefE C q2 k) (coefF C q2 k) (imgZ A q1 j) (imgX A q1 j) =
+      linfun n (coefE C q2 k) (coefF C q2 k) (fun m => parityTo n fun l => imgX A q1 j l && B m l)
+        (fun m => parityTo n fun l => imgX A q1 j l && decide (m = l)) := by
+    unfold linfun
+    apply parityTo_congr
+    intro m hm
+    show xor (coefE C q2 k m && imgZ A q1 j m) (coefF C q2 k m && imgX A q1 j m) =
+      xor (coefE C q2 k m && parityTo n fun l => imgX A q1 j l && B m l)
+          (coefF C q2 k m && parityTo n fun l => imgX A q1 j l && decide (m = l))
+    rw [← hz m hm, ← hx m hm]
+  rw [hcong, linfun_linear n _ _ (imgX A q1 j) (fun l m => B m l) (fun l m => decide (m = l))]
+  apply parityTo_zero
+  intro l hl
+  rw [← equation_linfun n B C q2 l k hB hC hl hk, h2 l k hl hk]
+  simp
+
+
+/-- the identity `Q` -/
+def qId (idx : Nat) : Bool := decide (idx % 4 = 0 ∨ idx % 4 = 3)
+
+theorem qId_vals (m : Nat) : qId (4 * m) = true ∧ qId (4 * m + 1) = false ∧ qId (4 * m + 2) = false ∧ qId (4 * m + 3) = true := by
+  unfold qId
+  refine ⟨?_, ?_, ?_, ?_⟩ <;> (first | (apply decide_eq_true; omega) | (apply decide_eq_false; omega))
+
+theorem equation_id (n : Nat) (A : Adj) (j k : Nat) : equation n A A qId j k = false := by
+  unfold equation
+  rw [(qId_vals k).1, (qId_vals j).2.2.2, (qId_vals j).2.1]
+  have : (parityTo n fun m => A m j && A m k && qId (4 * m + 2)) = false := by
+    apply parityTo_zero
+    intro m _
+    rw [(qId_vals m).2.2.1]; simp
+  rw [this]
+  cases A j k <;> simp
+
+theorem detQ_id (m : Nat) : detQ qId m = true := by
+  unfold detQ
+  rw [(qId_vals m).1, (qId_vals m).2.1, (qId_vals m).2.2.1, (qId_vals m).2.2.2]; rfl
+
+theorem detQ_lcQ (n : Nat) (A : Adj) (v : Nat) (hv : v < n) (hA : Simple n A) (m : Nat) : detQ (lcQ A v) m = true := by
+  unfold detQ
+  rw [lcQ_0, lcQ_1, lcQ_2, lcQ_3]
+  by_cases e : m = v
+  · subst e; simp [hA.2 m hv]
+  · simp [e]
+
+theorem equation_congr_right (n : Nat) (A B B' : Adj) (q : Nat → Bool) (j k : Nat) (hj : j < n) (hk : k < n)
+    (h : EqAdj n B B') : equation n A B q j k = equation n A B' q j k := by
+  unfold equation
+  rw [h j k hj hk]
+  congr 2
+  apply parityTo_congr
+  intro m hm
+  rw [h m k hm hk]
+
+/-- **every graph in the LC orbit of `A` is reached by a valid local Clifford**: for every sequence of local
+    complementations there is a `Q` with invertible blocks solving the system for `(A, applySeq A vs)` -/
+theorem orbit_has_valid_Q (n : Nat) (A : Adj) (vs : List Nat) (hA : Simple n A) (hvs : ∀ v ∈ vs, v < n) :
+    ∃ q : Nat → Bool, (∀ j k, j < n → k < n → equation n A (applySeq A vs) q j k = false) ∧ ∀ m, detQ q m = true := by
+  induction vs generalizing A with
+  | nil => exact ⟨qId, fun j k _ _ => equation_id n A j k, detQ_id⟩
+  | cons v rest ih =>
+    have hv : v < n := hvs v (by simp)
+    have hA1 : Simple n (localComp A v) := localComp_simple n A v hv hA
+    obtain ⟨q2, h2, d2⟩ := ih (localComp A v) hA1 (fun w hw => hvs w (List.mem_cons_of_mem _ hw))
+    refine ⟨qComp q2 (lcQ A v), ?_, fun m => ?_⟩
+    · intro j k hj hk
+      show equation n A (applySeq (localComp A v) rest) (qComp q2 (lcQ A v)) j k = false
+      exact equation_trans n A (localComp A v) _ (lcQ A v) q2 hA hA1
+        (applySeq_simple n _ rest hA1 (fun w hw => hvs w (List.mem_cons_of_mem _ hw)))
+        (fun j k hj hk => lcQ_solves n A v hv hA j k hj hk) h2 j k hj hk
+    · rw [detQ_comp, d2 m, detQ_lcQ n A v hv hA m]; rfl
+
+theorem equation_congr_q (n : Nat) (A B : Adj) (q q' : Nat → Bool) (j k : Nat) (hj : j < n) (hk : k < n)
+    (h : ∀ i, i < 4 * n → q i = q' i) : equation n A B q j k = equation n A B q' j k := by
+  unfold equation
+  rw [h (4 * k) (by omega), h (4 * j + 3) (by omega), h (4 * j + 1) (by omega)]
+  congr 2
+  apply parityTo_congr
+  intro m hm
+  rw [h (4 * m + 2) (by omega)]
+
+/-- list form: a valid `Q` as the implementation would return it -/
+theorem same_orbit_has_valid_Q_list (n : Nat) (A B : Adj) (vs : List Nat) (hA : Simple n A) (hvs : ∀ v ∈ vs, v < n)
+    (hB : EqAdj n (applySeq A vs) B) :
+    ∃ v : List Bool, (∀ j k, j < n → k < n → equation n A B (vget v) j k = false) ∧ isValidClifford n v = true := by
+  obtain ⟨q, h1, h2⟩ := orbit_has_valid_Q n A vs hA hvs
+  refine ⟨(List.range (4 * n)).map q, ?_, ?_⟩
+  · intro j k hj hk
+    rw [equation_congr_q n A B _ q j k hj hk (fun i hi => vget_map_range (4 * n) q i hi),
+      ← equation_congr_right n A _ B q j k hj hk hB]
+    exact h1 j k hj hk
+  · unfold isValidClifford
+    rw [List.all_eq_true]
+    intro i hi
+    have hi' : i < n := List.mem_range.mp hi
+    rw [vget_map_range (4 * n) _ (4 * i) (by omega), vget_map_range (4 * n) _ (4 * i + 1) (by omega),
+      vget_map_range (4 * n) _ (4 * i + 2) (by omega), vget_map_range (4 * n) _ (4 * i + 3) (by omega)]
+    exact h2 i
+
+
 end Graphiq.LC
